@@ -2601,7 +2601,10 @@ void Analyser::AnalyserImpl::analyseModel(const ModelPtr &model)
     // Mark some variables as external variables, should there be some and
     // should they belong to the model being analysed.
 
-    std::map<VariablePtr, VariablePtrs> primaryExternalVariables;
+    // Note: kept in order of first appearance (rather than sorted by address),
+    //       so that issues are always reported in the same order.
+
+    std::vector<std::pair<VariablePtr, VariablePtrs>> primaryExternalVariables;
 
     if (!mExternalVariables.empty()) {
         for (const auto &externalVariable : mExternalVariables) {
@@ -2627,7 +2630,14 @@ void Analyser::AnalyserImpl::analyseModel(const ModelPtr &model)
             } else {
                 auto internalVariable = Analyser::AnalyserImpl::internalVariable(variable);
 
-                primaryExternalVariables[internalVariable->mVariable].push_back(variable);
+                auto primaryExternalVariable = std::find_if(primaryExternalVariables.begin(), primaryExternalVariables.end(),
+                                                            [&](const std::pair<VariablePtr, VariablePtrs> &entry) { return entry.first == internalVariable->mVariable; });
+
+                if (primaryExternalVariable == primaryExternalVariables.end()) {
+                    primaryExternalVariables.emplace_back(internalVariable->mVariable, VariablePtrs {variable});
+                } else {
+                    primaryExternalVariable->second.push_back(variable);
+                }
 
                 if (!internalVariable->mIsExternal) {
                     internalVariable->mIsExternal = true;
